@@ -201,7 +201,6 @@ pub proof fn lemma_visit(parts: Seq<Vec<usize>>, parts2: Seq<Vec<usize>>, visite
 
 //@ extract fn src/algorithms/components/weak_connectivity.rs bfs_equal_size_partitions props=C10,C20
 //@ head
-#[verifier::exec_allows_no_decreases_clause]
 #[verifier::loop_isolation(false)]
 #[verifier::allow_complex_invariants]
 //@ rewrite
@@ -293,6 +292,11 @@ vrange_find_not(graph.number_of_nodes(), &visited)
             visited_count == count_true(visited@),
             partition < num_partitions ==> partitions@[partition as int]@.len() < partition_max_size,
             forall|q: int| 0 <= q < queue@.len() ==> #[trigger] queue@[q] < graph.n(),
+            queue@.len() == 0,
+        // [C20.parts.terminates] every round of the outer loop visits the unvisited node it starts from
+        decreases graph.n() - visited_count,
+//@ before queue.push(node);
+        let ghost vc0 = visited_count;
 //@ before let node = 
         proof {
             // some node is unvisited, and the current part index is in range (k parts of this size hold more than n nodes)
@@ -319,8 +323,14 @@ vrange_find_not(graph.number_of_nodes(), &visited)
                 shape_ok(partitions@, partition as int, partition_max_size as int, num_partitions as int, visited_count as int),
                 visited_count == count_true(visited@),
                 forall|q: int| 0 <= q < queue@.len() ==> #[trigger] queue@[q] < graph.n(),
+                visited_count <= graph.n(),
+                visited_count > vc0 || (queue@.len() > 0 && queue@[0] == node && !visited@[node as int] && visited_count == vc0),
             ensures
                 partitions@[partition as int]@.len() <= partition_max_size,
+                partitions@[partition as int]@.len() < partition_max_size ==> queue@.len() == 0,
+                visited_count > vc0,
+            // a step visits a new node (there are n) or only shortens the queue
+            decreases graph.n() - visited_count, queue@.len(),
 //@ before visited[current] = true;
                 let ghost parts0 = partitions@;
                 let ghost vis0 = visited@;
